@@ -128,6 +128,9 @@ func (ex *Exec) dispatch(fr *Frame, st *State, site ssa.Instruction, fn *ssa.Fun
 		ex.callbackEffect(fr, st, site, args[idx])
 		return ex.freshResults(st, fn.Signature, "lib")
 	}
+	if full == "(*text/scanner.Scanner).Scan" && len(args) == 1 {
+		return ex.scannerScan(fr, st, site, fn, args)
+	}
 	if (full == "container/heap.Push" || full == "container/heap.Pop") && len(args) > 0 {
 		if r, ok := ex.heapGeneric(fr, st, site, fn, full, args); ok {
 			return r
@@ -508,6 +511,37 @@ func (ex *Exec) modularCall(fr *Frame, st *State, site ssa.Instruction, fn *ssa.
 		ex.fact(st, f)
 	}
 	return rets
+}
+
+// scannerScan models (*text/scanner.Scanner).Scan on the ghost counter scanRemaining(s): the unread
+// input never grows, a token other than EOF consumes at least one rune, and EOF is returned when
+// nothing is left. Scan reports lexical errors through the Error field: when that holds a closure
+// under contract, the closure's frame becomes arbitrary (it may have run).
+func (ex *Exec) scannerScan(fr *Frame, st *State, site ssa.Instruction, fn *ssa.Function, args []Val) []Val {
+	ex.assumed["model (*text/scanner.Scanner).Scan: returns EOF when the ghost counter scanRemaining(s) is 0; any other token consumes at least one rune; errors are reported through s.Error (its frame is havoced); the program heap is otherwise untouched"] = true
+	s := tm(args[0])
+	// s.Error
+	if st0, ok := fn.Signature.Recv().Type().(*types.Pointer).Elem().Underlying().(*types.Struct); ok {
+		for i := 0; i < st0.NumFields(); i++ {
+			if st0.Field(i).Name() == "Error" {
+				cb := st.heap.load(Fld(s, fieldID(st0, i)), st0.Field(i).Type(), nil)
+				if t, isT := cb.(*Term); isT && t.Op == "fnp" {
+					if id, lit := t.Args[0].IsInt(); lit && closureByID[int(id)] != nil {
+						ex.callbackEffect(fr, st, site, closureByID[int(id)])
+					}
+				}
+			}
+		}
+	}
+	arr := st.heap.array("G@scanRemaining", arrSort(SPtr, SInt))
+	rem := Select(arr, s)
+	r := Fresh("scan.tok", SInt)
+	rem2 := Fresh("scan.rem", SInt)
+	ex.fact(nil, And(Ge(rem, IntT(0)), Ge(rem2, IntT(0)), Le(rem2, rem)))
+	ex.fact(nil, Implies(Not(Eq(r, IntT(-1))), Lt(rem2, rem)))
+	ex.fact(nil, Implies(Eq(rem, IntT(0)), Eq(r, IntT(-1))))
+	st.heap.set("G@scanRemaining", Store(arr, s, rem2))
+	return []Val{r}
 }
 
 // heapGeneric models container/heap.Push / Pop on an implementation that is not a plain slice
